@@ -220,3 +220,6 @@ def run(ctx):
     # growth next to C11: the ST-DBSCAN clustering that writes cluster / noise markers (StDbscan.tla)
     from drivers import stdbscan_common
     stdbscan_common.run(ctx, ctx.tier == "quick")
+    # growth next to C11: the even split  track / n  as coded (EvenSplit.tla)
+    from drivers import evensplit_common
+    evensplit_common.run(ctx, ctx.tier == "quick")
